@@ -11,6 +11,13 @@ has run (state `"records"`): `send_record`, `dataReceived` (its catch-all), `dat
 derivations of `Common` (`_sender_record_key` / `_receiver_record_key` for `is_sender` true/false),
 whose `CTXinfo` strings are the *generated* ones (`WV.Gen.C06`).
 
+Application callbacks are part of the model: a read callback or a consumer-Deferred callback is a
+finite script (`Act`) of further API calls — `receive_record`, `connectConsumer` / `writeToFile`,
+`disconnectConsumer`, `close` — executed *re-entrantly*, on an explicit call stack (`Frame`,
+`appStep`, `runAgenda`): inside `_deliverRecords`' loop when the Deferred already has its callback,
+or when `receive_record()` / `connectConsumer()` returns and the callback is attached to a Deferred
+that fired meanwhile.  `recordReceived` and every application call run that stack to completion.
+
 XSalsa20-Poly1305 and HKDF are interfaces (`Box`, `Env.hkdf`); their ideal properties are
 hypotheses of the theorems (`WV.Props.C06`), never axioms.  The driver instantiates `Box` with the
 *ideal AEAD functionality*: a table of the sealings that were actually made (given in the operation
@@ -44,13 +51,13 @@ structure Env where
   transitKey : Bytes
 
 inductive Err where
-  | badNonce | cryptoError | valueError | typeError | assertion | binascii | runtimeError
+  | badNonce | cryptoError | valueError | typeError | assertion | binascii | runtimeError | attributeError
   deriving DecidableEq, Repr
 
 def Err.name : Err → String
   | .badNonce => "BadNonce" | .cryptoError => "CryptoError" | .valueError => "ValueError"
   | .typeError => "TypeError" | .assertion => "AssertionError" | .binascii => "Error"
-  | .runtimeError => "RuntimeError"
+  | .runtimeError => "RuntimeError" | .attributeError => "AttributeError"
 
 /-- PyNaCl's `SecretBox.decrypt(encrypted)` with the nonce prepended: the wrapper's own length
     checks, then `crypto_secretbox_open` -/
@@ -79,42 +86,84 @@ inductive St where
   | records | hungUp
   deriving DecidableEq, Repr
 
-/-- a Deferred handed out by `receive_record()`.  `chain` models the usual
-    `yield receive_record()` loop: the callback of this read calls `receive_record()` again
-    (re-entrantly, from inside `d.callback(r)`) with `chain - 1`, if `chain > 0`. -/
+/-- What application code does when one of its callbacks runs — *re-entrantly*, from inside
+    `d.callback(…)` inside the connection's own loops.  Scripts are finite trees: every finite run
+    of any application (also of a "keep reading forever" loop) is the run of its finite unfolding,
+    so nothing is lost for the delivery / order theorems, and every run terminates. -/
+inductive Act where
+  /-- `d = receive_record(); d.addCallback(cb)` where `cb` runs `onFire` -/
+  | read (onFire : List Act)
+  /-- `d = connectConsumer(c, expected)` / `writeToFile(f, expected)`; `d.addCallback(cb)` where
+      `cb` runs `onDone` (no Deferred when `expected` is `None`) -/
+  | consume (expected : Option Nat) (onDone : List Act)
+  /-- the application calls `disconnectConsumer()` -/
+  | detach
+  /-- the application calls `close()` -/
+  | close
+
+mutual
+/-- size of a script (a termination measure: `Props.C06.agenda_fuel_sufficient`) -/
+def Act.sz : Act → Nat
+  | .read s => 4 + szList s
+  | .consume _ s => 5 + szList s
+  | .detach => 2
+  | .close => 2
+def szList : List Act → Nat
+  | [] => 0
+  | a :: as => a.sz + szList as
+end
+
+/-- a Deferred handed out by `receive_record()` and still in `_waiting_reads`.  `cb = none`: the
+    application has not attached its callback yet (we are still inside that `receive_record()`
+    call); `some s`: the callback is attached and will run script `s` -/
 structure Reader where
   id : Nat
-  chain : Nat
-  deriving DecidableEq, Repr
+  cb : Option (List Act)
 
-/-- `_consumer` attached: `_consumer_bytes_written`, `_consumer_bytes_expected`
-    (`_consumer_deferred` exists iff `expected` is not `None`) -/
+/-- `_consumer` attached: `_consumer_bytes_written`, `_consumer_bytes_expected`; `cid` names the
+    Deferred returned by this `connectConsumer` call (it exists iff `expected` is not `None`), `cb`
+    its callback, if attached already -/
 structure Consumer where
+  cid : Nat
   written : Nat
   expected : Option Nat
-  deriving DecidableEq, Repr
+  cb : Option (List Act)
 
 /-- everything the application / transport / consumer sees, in order -/
 inductive Ev where
-  | fired (id : Nat) (r : Bytes)   -- a `receive_record()` Deferred called back with `r`
-  | failed (id : Nat)              -- … errbacked with `ConnectionClosed`
+  | assigned (id : Nat) (r : Bytes) -- `d.callback(r)` executed by `_deliverRecords` (the record leaves the queue)
+  | fired (id : Nat) (r : Bytes)   -- the application's read callback runs with `r`
+  | failed (id : Nat)              -- the application's read errback runs (`ConnectionClosed`)
   | cwrite (r : Bytes)             -- `consumer.write(record)`
   | ckick                          -- `consumer.write(b"")` of `connectConsumer(expected=0)`
-  | cdone (n : Nat)                -- consumer Deferred called back with the byte count
+  | cdone (n : Nat)                -- the consumer Deferred's callback runs with the byte count
   | cfail                          -- consumer Deferred errbacked with `ConnectionClosed`
   | reg | unreg                    -- `consumer.registerProducer(self, True)` / `unregisterProducer()`
   | lose                           -- `transport.loseConnection()`
   | tx (b : Bytes)                 -- `transport.write(b)`
+  | raised (e : Err)               -- an exception left an API call made by application code
   deriving DecidableEq, Repr
+
+/-- one activation record of the connection's code that application callbacks can re-enter -/
+inductive Frame where
+  | deliver                               -- inside the `while` of `_deliverRecords()`
+  | drain                                 -- inside the `while` of `connectConsumer()`
+  | script (acts : List Act)              -- the rest of an application callback
+  | attachRead (id : Nat) (s : List Act)  -- `receive_record()` has returned: `d.addCallbacks(…)`
+  | attachCons (cid : Nat) (s : List Act) -- `connectConsumer()` has returned: `d.addCallbacks(…)`
 
 /-- the part of `Connection` that `recordReceived` and the read/consumer API work on -/
 structure App where
   inbound : List Bytes        -- `_inbound_records`
   waiting : List Reader       -- `_waiting_reads`
   consumer : Option Consumer  -- `_consumer` (+ written/expected/deferred)
-  nextId : Nat                -- numbering of the Deferreds handed out (first-occurrence index)
+  nextId : Nat                -- numbering of the read Deferreds handed out (first-occurrence index)
+  nextCid : Nat               -- numbering of the `connectConsumer` calls
+  /-- read Deferreds that were fired (`some r`) / failed (`none`) before a callback was attached -/
+  storedReads : List (Nat × Option Bytes)
+  /-- consumer Deferreds that were fired before a callback was attached: `cid ↦ written` -/
+  storedDone : List (Nat × Nat)
   log : List Ev
-  deriving DecidableEq, Repr
 
 structure Conn where
   isSender : Bool             -- `owner.is_sender`
@@ -124,9 +173,10 @@ structure Conn where
   nextReceiveNonce : Nat
   error : Option Err          -- `_error`
   app : App
-  deriving DecidableEq, Repr
 
-def App.init : App := { inbound := [], waiting := [], consumer := none, nextId := 0, log := [] }
+def App.init : App :=
+  { inbound := [], waiting := [], consumer := none, nextId := 0, nextCid := 0, storedReads := [], storedDone := [],
+    log := [] }
 
 /-- the connection as `_negotiationSuccessful` leaves it; `leftover` = bytes that arrived behind
     the handshake in the same `dataReceived` call -/
@@ -168,40 +218,157 @@ def decryptRecord (E : Env) (c : Conn) (encrypted : Bytes) : Conn × Except Err 
 /-- `disconnectConsumer()` -/
 def disconnectConsumer (a : App) : App := { a with consumer := none, log := a.log ++ [.unreg] }
 
+/-- `d.callback(written)` on the consumer's Deferred (after `disconnectConsumer()`): the callback
+    runs now if it is attached, else the result waits in the Deferred -/
+def consumerDone (a : App) (k : Consumer) (w : Nat) : App × List Frame :=
+  match k.cb with
+  | some s => (a.emit [.cdone w], [.script s])
+  | none => ({ a with storedDone := a.storedDone ++ [(k.cid, w)] }, [])
+
 /-- `_writeToConsumer(record)` with `_consumer` = `k` attached; `kick` marks the empty write of
-    `connectConsumer(expected=0)` -/
-def writeToConsumer (a : App) (k : Consumer) (record : Bytes) (kick : Bool) : App :=
+    `connectConsumer(expected=0)`.  Result: the frames pushed by a callback that starts running. -/
+def writeToConsumer (a : App) (k : Consumer) (record : Bytes) (kick : Bool) : App × List Frame :=
   let w := k.written + record.length
   let a1 := { a with consumer := some { k with written := w },
                      log := a.log ++ [if kick then .ckick else .cwrite record] }
   match k.expected with
-  | some n => if w ≥ n then (disconnectConsumer a1).emit [.cdone w] else a1
-  | none => a1
+  | some n => if w ≥ n then consumerDone (disconnectConsumer a1) k w else (a1, [])
+  | none => (a1, [])
 
-/-- the `while self._inbound_records and self._waiting_reads` loop of `_deliverRecords`.  A chained
-    reader's callback re-enters `receive_record()` → `_deliverRecords()`; the nested loop is this
-    same loop on the same queues, so it is the loop simply going on. -/
-def deliverLoop : List Bytes → List Reader → Nat → List Ev → List Bytes × List Reader × Nat × List Ev
-  | [], ws, nid, lg => ([], ws, nid, lg)
-  | r :: rs, [], nid, lg => (r :: rs, [], nid, lg)
-  | r :: rs, d :: ds, nid, lg =>
-    if d.chain > 0 then deliverLoop rs (ds ++ [⟨nid, d.chain - 1⟩]) (nid + 1) (lg ++ [.fired d.id r])
-    else deliverLoop rs ds nid (lg ++ [.fired d.id r])
+/-- `d.callback(r)` on a read Deferred popped from `_waiting_reads` -/
+def fireRead (a : App) (d : Reader) (r : Bytes) : App × List Frame :=
+  let a1 := a.emit [.assigned d.id r]
+  match d.cb with
+  | some s => (a1.emit [.fired d.id r], [.script s])
+  | none => ({ a1 with storedReads := a1.storedReads ++ [(d.id, some r)] }, [])
 
-/-- `_deliverRecords()` -/
-def deliverRecords (a : App) : App :=
-  match deliverLoop a.inbound a.waiting a.nextId a.log with
-  | (inb, ws, nid, lg) => { a with inbound := inb, waiting := ws, nextId := nid, log := lg }
+/-- `d.errback(error.ConnectionClosed())` on a read Deferred (errbacks are passive) -/
+def failRead (a : App) (d : Reader) : App :=
+  match d.cb with
+  | some _ => a.emit [.failed d.id]
+  | none => { a with storedReads := a.storedReads ++ [(d.id, none)] }
+
+/-- `close()` -/
+def close (a : App) : App :=
+  a.waiting.foldl failRead ({ a with waiting := [] }.emit [.lose])
+
+/-- `connectionLost(reason)` after negotiation (`_negotiation_d` is `None`) -/
+def connectionLost (a : App) : App :=
+  let a1 := a.waiting.foldl failRead { a with waiting := [] }
+  match a1.consumer with
+  | some ⟨_, _, some _, _⟩ => a1.emit [.cfail]
+  | _ => a1
+
+/-- `d.addCallbacks(cb, eb)` on the read Deferred `id`, still waiting -/
+def attachFirst (id : Nat) (s : List Act) : List Reader → List Reader
+  | [] => []
+  | d :: ds => if d.id = id then { d with cb := some s } :: ds else d :: attachFirst id s ds
+
+def lookupRead (l : List (Nat × Option Bytes)) (id : Nat) : Option (Option Bytes) :=
+  (l.find? (fun p => p.1 == id)).map (·.2)
+
+def lookupDone (l : List (Nat × Nat)) (cid : Nat) : Option Nat :=
+  (l.find? (fun p => p.1 == cid)).map (·.2)
+
+/-- One step of the top activation record.  Result: the new state and the frames that replace the
+    popped one (first = innermost).  Python's control flow, frame by frame:
+    * `deliver`: `while self._inbound_records and self._waiting_reads: … d.callback(r)` — an attached
+      callback runs *inside* the loop, which then re-tests its condition on whatever the callback left;
+    * `drain`: `while self._consumer and self._inbound_records: … self._writeToConsumer(r)`;
+    * `script`: the next API call of an application callback; an exception leaving the call ends the
+      callback (the Deferred swallows it);
+    * `attachRead` / `attachCons`: the API call has returned its Deferred and the application adds
+      its callback — which runs at once if the Deferred has fired meanwhile. -/
+def appStep (a : App) : Frame → App × List Frame
+  | .deliver =>
+    match a.inbound, a.waiting with
+    | r :: rs, d :: ds =>
+      match fireRead { a with inbound := rs, waiting := ds } d r with
+      | (a', fs) => (a', fs ++ [.deliver])
+    | _, _ => (a, [])
+  | .drain =>
+    match a.consumer, a.inbound with
+    | some k, r :: rs =>
+      match writeToConsumer { a with inbound := rs } k r false with
+      | (a', fs) => (a', fs ++ [.drain])
+    | _, _ => (a, [])
+  | .script [] => (a, [])
+  | .script (.read s :: rest) =>
+    -- receive_record(): d = Deferred(); self._waiting_reads.append(d); self._deliverRecords(); return d
+    ({ a with waiting := a.waiting ++ [⟨a.nextId, none⟩], nextId := a.nextId + 1 },
+     [.deliver, .attachRead a.nextId s, .script rest])
+  | .script (.consume ex s :: rest) =>
+    match a.consumer with
+    | some _ => (a.emit [.raised .runtimeError], [])
+    | none =>
+      let k : Consumer := { cid := a.nextCid, written := 0, expected := ex, cb := none }
+      let a1 := { a with consumer := some k, nextCid := a.nextCid + 1, log := a.log ++ [.reg] }
+      match (if ex = some 0 then writeToConsumer a1 k [] true else (a1, [])) with
+      | (a2, fs) => (a2, fs ++ [.drain, .attachCons k.cid s, .script rest])
+  | .script (.detach :: rest) =>
+    match a.consumer with
+    | none => (a.emit [.raised .attributeError], [])     -- `None.unregisterProducer()`
+    | some _ => (disconnectConsumer a, [.script rest])
+  | .script (.close :: rest) => (close a, [.script rest])
+  | .attachRead id s =>
+    match lookupRead a.storedReads id with
+    | some (some r) =>
+      ({ a with storedReads := a.storedReads.filter (fun p => p.1 != id) }.emit [.fired id r], [.script s])
+    | some none =>
+      ({ a with storedReads := a.storedReads.filter (fun p => p.1 != id) }.emit [.failed id], [])
+    | none => ({ a with waiting := attachFirst id s a.waiting }, [])
+  | .attachCons cid s =>
+    match lookupDone a.storedDone cid with
+    | some w =>
+      ({ a with storedDone := a.storedDone.filter (fun p => p.1 != cid) }.emit [.cdone w], [.script s])
+    | none =>
+      match a.consumer with
+      | some k => if k.cid = cid then ({ a with consumer := some { k with cb := some s } }, []) else (a, [])
+      | none => (a, [])
+
+/-- run the call stack (`agenda`, innermost frame first) until it is empty, at most `fuel` steps -/
+def runAgenda : Nat → App → List Frame → App × List Frame
+  | 0, a, ag => (a, ag)
+  | _ + 1, a, [] => (a, [])
+  | fuel + 1, a, fr :: ag =>
+    match appStep a fr with
+    | (a', fs) => runAgenda fuel a' (fs ++ ag)
+
+def szOpt : Option (List Act) → Nat
+  | none => 0
+  | some s => szList s
+
+def Frame.weight : Frame → Nat
+  | .deliver => 1
+  | .drain => 1
+  | .script acts => 1 + szList acts
+  | .attachRead _ s => 2 + szList s
+  | .attachCons _ s => 2 + szList s
+
+def agendaWeight (ag : List Frame) : Nat := (ag.map Frame.weight).sum
+
+def consumerWeight : Option Consumer → Nat
+  | some k => szOpt k.cb
+  | none => 0
+
+/-- what is left to do: every step of `runAgenda` makes it smaller (`Proofs.C06.appStep_decreases`) -/
+def potential (a : App) (ag : List Frame) : Nat :=
+  2 * a.inbound.length + (a.waiting.map (fun d => szOpt d.cb)).sum + consumerWeight a.consumer + agendaWeight ag
+
+/-- run the call stack to completion; `potential` steps always suffice
+    (`Props.C06.agenda_fuel_sufficient`) -/
+def settle (a : App) (ag : List Frame) : App := (runAgenda (potential a ag) a ag).1
 
 /-- `recordReceived(record)` -/
 def recordReceived (a : App) (record : Bytes) : App :=
   match a.consumer with
-  | some k => writeToConsumer a k record false
-  | none => deliverRecords { a with inbound := a.inbound ++ [record] }
+  | some k =>
+    match writeToConsumer a k record false with
+    | (a1, fs) => settle a1 fs
+  | none => settle { a with inbound := a.inbound ++ [record] } [.deliver]
 
-/-- `receive_record()` (the Deferred gets the next id) -/
-def receiveRecord (a : App) (chain : Nat) : App :=
-  deliverRecords { a with waiting := a.waiting ++ [⟨a.nextId, chain⟩], nextId := a.nextId + 1 }
+/-- application code calling the API from outside any callback (top level) -/
+def appCall (a : App) (acts : List Act) : App := settle a [.script acts]
 
 /-- one frame off the front of the buffer: `(encrypted, rest)`; `none` = `return` (wait for more) -/
 def parseFrame (buf : Bytes) : Option (Bytes × Bytes) :=
@@ -240,51 +407,18 @@ def dataReceived (E : Env) (c : Conn) (data : Bytes) : Conn × Option Err :=
     | (c2, none) => (c2, none)
     | (c2, some e) => (hangUp c2 e, some e)
 
-/-- `connectionLost(reason)` after negotiation (`_negotiation_d` is `None`) -/
-def connectionLost (a : App) : App :=
-  let a1 := { a with waiting := [], log := a.log ++ a.waiting.map (fun (d : Reader) => Ev.failed d.id) }
-  match a1.consumer with
-  | some ⟨_, some _⟩ => a1.emit [.cfail]
-  | _ => a1
-
-/-- `close()` -/
-def close (a : App) : App :=
-  { a with waiting := [], log := a.log ++ [.lose] ++ a.waiting.map (fun (d : Reader) => Ev.failed d.id) }
-
-/-- the `while self._consumer and self._inbound_records` loop of `connectConsumer` -/
-def drain : List Bytes → App → App
-  | [], a => { a with inbound := [] }
-  | r :: rs, a =>
-    match a.consumer with
-    | none => { a with inbound := r :: rs }
-    | some k => drain rs (writeToConsumer { a with inbound := rs } k r false)
-
-/-- `connectConsumer(consumer, expected)` / `writeToFile(f, expected)` -/
-def connectConsumer (a : App) (expected : Option Nat) : App × Option Err :=
-  match a.consumer with
-  | some _ => (a, some .runtimeError)
-  | none =>
-    let k : Consumer := { written := 0, expected := expected }
-    let a1 := { a with consumer := some k, log := a.log ++ [.reg] }
-    let a2 := if expected = some 0 then writeToConsumer a1 k [] true else a1
-    (drain a2.inbound a2, none)
-
 /-! ## runs -/
 
 inductive Op where
   | data (b : Bytes)
-  | read (chain : Nat)
-  | consume (expected : Option Nat)
+  /-- application code (not inside a callback) makes these API calls -/
+  | call (acts : List Act)
   | lost
-  | close
-  deriving DecidableEq, Repr
 
 def step (E : Env) (c : Conn) : Op → Conn
   | .data b => (dataReceived E c b).1
-  | .read chain => { c with app := receiveRecord c.app chain }
-  | .consume ex => { c with app := (connectConsumer c.app ex).1 }
+  | .call acts => { c with app := appCall c.app acts }
   | .lost => { c with app := connectionLost c.app }
-  | .close => { c with app := close c.app }
 
 def run (E : Env) (c : Conn) (ops : List Op) : Conn := ops.foldl (step E) c
 
@@ -302,11 +436,12 @@ def sendMany (E : Env) : Conn → List Bytes → Conn × Option Err
 /-! ## observations -/
 
 def Ev.payload : Ev → Option Bytes
-  | .fired _ r => some r
+  | .assigned _ r => some r
   | .cwrite r => some r
   | _ => none
 
-/-- records handed to the application (to a read or to the consumer), in order -/
+/-- records handed to the application (to a read Deferred or to the consumer), in the order in which
+    they left the connection -/
 def App.delivered (a : App) : List Bytes := a.log.filterMap Ev.payload
 
 /-- records accepted from the wire: delivered ones, then the ones still queued -/
@@ -398,12 +533,16 @@ seal <hex ctxinfo> <hex nonce> <hex pt> <hex sealed>  -> ok   (register a sealin
 send <S|R> <hex pt> <hex sealed>            -> summary      (send_record; registers the sealing under the
                                                              model's own send key and nonce first)
 data <S|R> <hex>                            -> summary      (dataReceived)
-read <S|R> <chain>                          -> summary      (receive_record)
-consume <S|R> <n|none>                      -> summary      (connectConsumer / writeToFile)
+call <S|R> <script>                         -> summary      (application code, outside any callback, makes
+                                                             these API calls; a callback's own script is nested)
 lost <S|R>                                  -> summary      (connectionLost)
-close <S|R>                                 -> summary
 ```
 summary = `<ok|ExceptionName> st=… buf=<len> sn=… rn=… q=<queued> wait=<ids> cons=<written/expected|-> ev=[new events]`
+
+script = `-` (nothing) or postfix tokens joined by `.`: `d` = disconnectConsumer(), `x` = close(),
+`r<N>` = receive_record() whose callback runs the N actions before it, `c<E>:<N>` = connectConsumer(expected
+= E, `n` for None) whose Deferred's callback runs the N actions before it.  E.g. `r0.r1` = a read whose
+callback reads again; `r0.c5:1` = attach a consumer for 5 bytes and, when it is done, read one record.
 -/
 
 structure Sealing where
@@ -432,17 +571,19 @@ structure DrvSt where
 
 def drvInit : DrvSt := { table := [], s := none, r := none }
 
-def showEv : Ev → String
-  | .fired id r => s!"r{id}={toHex r}"
-  | .failed id => s!"x{id}"
-  | .cwrite r => s!"w={toHex r}"
-  | .ckick => "w=-"
-  | .cdone n => s!"cd={n}"
-  | .cfail => "cx"
-  | .reg => "reg"
-  | .unreg => "unreg"
-  | .lose => "lose"
-  | .tx b => s!"tx={toHex b}"
+def showEv : Ev → Option String
+  | .assigned _ _ => none          -- not visible from outside at the time it happens
+  | .fired id r => some s!"r{id}={toHex r}"
+  | .failed id => some s!"x{id}"
+  | .cwrite r => some s!"w={toHex r}"
+  | .ckick => some "w=-"
+  | .cdone n => some s!"cd={n}"
+  | .cfail => some "cx"
+  | .reg => some "reg"
+  | .unreg => some "unreg"
+  | .lose => some "lose"
+  | .tx b => some s!"tx={toHex b}"
+  | .raised e => some ("!" ++ e.name)
 
 def showConn (old : Nat) (c : Conn) (exc : Option Err) : String :=
   let st := match c.state with | .records => "records" | .hungUp => "hung-up"
@@ -451,7 +592,32 @@ def showConn (old : Nat) (c : Conn) (exc : Option Err) : String :=
     | some k => s!"{k.written}/" ++ (match k.expected with | some n => toString n | none => "none")
   let e := match exc with | none => "ok" | some x => x.name
   let err := match c.error with | none => "-" | some x => x.name
-  s!"{e} st={st} err={err} buf={c.buf.length} sn={c.sendNonce} rn={c.nextReceiveNonce} q={c.app.inbound.length} wait=[{showNats (c.app.waiting.map (·.id))}] cons={cons} ev=[{" ".intercalate ((c.app.log.drop old).map showEv)}]"
+  s!"{e} st={st} err={err} buf={c.buf.length} sn={c.sendNonce} rn={c.nextReceiveNonce} q={c.app.inbound.length} wait=[{showNats (c.app.waiting.map (·.id))}] cons={cons} ev=[{" ".intercalate ((c.app.log.drop old).filterMap showEv)}]"
+
+def popN (n : Nat) (stack : List Act) : Option (List Act × List Act) :=
+  if stack.length < n then none else some ((stack.take n).reverse, stack.drop n)
+
+/-- one postfix token applied to the stack (top first) -/
+def scriptToken (stack : List Act) (t : String) : Option (List Act) :=
+  if t == "d" then some (.detach :: stack)
+  else if t == "x" then some (.close :: stack)
+  else if t.startsWith "r" then do
+    let n ← (String.ofList (t.toList.drop 1)).toNat?
+    let (kids, rest) ← popN n stack
+    pure (.read kids :: rest)
+  else if t.startsWith "c" then
+    match (String.ofList (t.toList.drop 1)).splitOn ":" with
+    | [e, n] => do
+      let ex ← if e == "n" then some none else e.toNat?.map some
+      let n ← n.toNat?
+      let (kids, rest) ← popN n stack
+      pure (.consume ex kids :: rest)
+    | _ => none
+  else none
+
+def parseScript (tok : String) : Option (List Act) :=
+  if tok == "-" then some []
+  else ((tok.splitOn ".").foldlM scriptToken []).map List.reverse
 
 def getConn (s : DrvSt) (w : String) : Option Conn :=
   if w == "S" then s.s else if w == "R" then s.r else none
@@ -497,17 +663,11 @@ def stepLine (s : DrvSt) (line : String) : DrvSt × String :=
     match fromHex? h with
     | some b => onConn s w (fun c => dataReceived (drvEnv s.table) c b)
     | none => (s, "bad-op")
-  | ["read", w, ch] =>
-    match ch.toNat? with
-    | some k => onConn s w (fun c => ({ c with app := receiveRecord c.app k }, none))
-    | none => (s, "bad-op")
-  | ["consume", w, ex] =>
-    let ex? : Option (Option Nat) := if ex == "none" then some none else ex.toNat?.map some
-    match ex? with
-    | some ex => onConn s w (fun c => let (a, e) := connectConsumer c.app ex; ({ c with app := a }, e))
+  | ["call", w, sc] =>
+    match parseScript sc with
+    | some acts => onConn s w (fun c => ({ c with app := appCall c.app acts }, none))
     | none => (s, "bad-op")
   | ["lost", w] => onConn s w (fun c => ({ c with app := connectionLost c.app }, none))
-  | ["close", w] => onConn s w (fun c => ({ c with app := close c.app }, none))
   | _ => (s, "bad-op")
 
 def driver (lines : List String) : List String := runLines stepLine drvInit lines
